@@ -230,53 +230,6 @@ func c16GenHistory() *rapid.Generator[c16History] {
 	})
 }
 
-// c16HistoryKnown rewrites the shape of known findings out of a history.
-//
-// auth-state-not-journaled: the signing key and the revocation markers are
-// written straight into the KV store, not through the journal, so they survive
-// a restart only if a snapshot / rewrite captured them. Shape: a restart while
-// such state is newer than the last snapshot or rewrite. Avoided by taking a
-// snapshot right before that restart.
-func c16HistoryKnown(h c16History) (c16History, []string) {
-	var out c16History
-	var ex []string
-	if verifkit.Known("kv-exposes-auth-state") {
-		// a non-admin token editing _sys_auth:: keys through /kv: drop those steps
-		var keep []c16HOp
-		for _, op := range h.Ops {
-			if op.Kind == "kv_unrevoke" || op.Kind == "kv_revoke" {
-				ex = append(ex, "kv-exposes-auth-state")
-				continue
-			}
-			keep = append(keep, op)
-		}
-		h.Ops = keep
-	}
-	dirty := true // the signing key is created at first boot
-	issued, revoked := map[int]bool{}, map[int]bool{}
-	for _, op := range h.Ops {
-		switch op.Kind {
-		case "issue":
-			issued[op.Slot] = true
-		case "revoke":
-			if issued[op.Slot] && !revoked[op.Slot] {
-				revoked[op.Slot] = true
-				dirty = true
-			}
-		case "snapshot", "rewrite":
-			dirty = false
-		case "restart":
-			if dirty && verifkit.Known("auth-state-not-journaled") {
-				out.Ops = append(out.Ops, c16HOp{Kind: "snapshot"})
-				ex = append(ex, "auth-state-not-journaled")
-				dirty = false
-			}
-		}
-		out.Ops = append(out.Ops, op)
-	}
-	return out, ex
-}
-
 func c16HistoryNT(h c16History) (nt bool, labels []string) {
 	issued, revoked := map[int]bool{}, map[int]bool{}
 	persisted := "none"
@@ -333,10 +286,6 @@ func TestVerif_C16_restart(t *testing.T) {
 	verifkit.RapidSetup(120, 1200)
 	rapid.Check(t, func(rt *rapid.T) {
 		h := c16GenHistory().Draw(rt, "history")
-		h, excluded := c16HistoryKnown(h)
-		for _, f := range excluded {
-			col.Excluded(f)
-		}
 		nt, labels := c16HistoryNT(h)
 		col.Case(h, nt, labels...)
 		msg := c16RunHistory(h)
